@@ -573,7 +573,35 @@ def rule_handle_writers(ctx):
     ctx.floor("writes of the search bookkeeping", n, 1)   # two fields on the reference tree, one when flag and handle share a struct
 
 
-RULES = [("handle-writers", rule_handle_writers), ("flag-writers", rule_flag_writers), ("publish-order", rule_publish_order), ("stop-arm", rule_stop_arm),
+def rule_one_at_a_time(ctx):
+    """At most one search thread works on the shared table at a time: a `go` that arrives while the previous search has not
+    reported yet is refused (there is such a refusal, and it hangs on the published running flag), and what the refusal
+    inspects is actually published by Uci::go - the thread's handle as well as its flag."""
+    ix = ctx.ix
+    b = ctx.body(EXEC)
+    sw, entry = variant_arm(ix, b, UCICOMMAND, "Go")
+    go_calls = {bi for bi, t in b.calls() if callee_is(t, UCI_GO)}
+    avoid = b.reachable_from(entry, removed=go_calls, include_start=True)
+    skip_exits = (err_return_blocks(b) & avoid) or {x for x in avoid if x >= 0 and mir.EXIT in b.succ(x)}
+    guards = set(flag_load_guards(ix, b, skip_exits)) if skip_exits else set()
+    ctx.check(bool(skip_exits) and bool(guards), "%s:Go:refuses-while-a-search-runs" % EXEC, "a go is refused while the published running flag is still set", b.where(entry),
+              bad_what="the Go arm starts a search unconditionally (no refusal that tests the running flag): a second `go` runs a second search thread beside the first, on the same table")
+    g = ctx.body(UCI_GO)
+    gsym = ctx.sym(g)
+    spawns = [(bi, t) for (sb, bi, t, _clo) in spawn_sites(ix) if sb.key == UCI_GO]
+    stored = False
+    for bi, i, st in g.stmts():
+        p = st["lhs"]
+        if not p["p"] or p["p"][0] != "*" or g.local_name(p["l"]) != g.local_name(1):
+            continue
+        v = gsym.rvalue(st["rv"])
+        if any(isinstance(x, tuple) and x[0] == "call" and isinstance(x[1], str) and x[1].endswith(("thread::spawn", "Builder::spawn")) for x in walk(v)):
+            stored = True
+    ctx.check(len(spawns) == 1 and stored, "%s:stores-the-thread-handle" % UCI_GO, "Uci::go keeps the handle of the thread it spawns in a field of Uci (the refusal test looks at it)", g.where(spawns[0][0] if spawns else 0),
+              bad_what="Uci::go does not store the handle of the search thread: the refusal in the Go arm, which matches on the stored handle, can never fire")
+
+
+RULES = [("one-at-a-time", rule_one_at_a_time), ("handle-writers", rule_handle_writers), ("flag-writers", rule_flag_writers), ("publish-order", rule_publish_order), ("stop-arm", rule_stop_arm),
          ("go-reaches-spawn", rule_go_reaches_spawn), ("no-swallow", rule_no_swallow), ("poll", rule_poll), ("legal-src", rule_legal_src)]
 # `stop` can only be honoured if the thread that reads it is never parked on anything but the input (C15.nonblocking)
 RULES += engine.premise_rules("c15", ["nonblocking", "io-exits"])
